@@ -38,6 +38,10 @@ func (rr *RdbReplay) Replay(e *rdb.BinEntry) (err error) {
 	var ttlms uint64
 	srcKey := e.Key
 	if rr.ReplaceHashTag {
+		// the entry is shared with the loader, which takes the key of a value's
+		// later bins from its first bin: rewrite the key in a copy
+		ce := *e
+		e = &ce
 		e.Key = bytes.Replace(e.Key, []byte("{"), []byte(""), 1)
 		e.Key = bytes.Replace(e.Key, []byte("}"), []byte(""), 1)
 	}
